@@ -42,7 +42,7 @@ func init() {
 		ID:    "C11",
 		Level: "exploration",
 		Rule: "writes: 6 write APIs (object and legacy) x efivars directory {default, /x/y, rel/dir} x variable definitions (25 predefined + {A, Boot0001, 64-char name} x 3 GUIDs x all 256 attribute masks) x values {empty db, 3-entry db, raw 0/1/4096 bytes}, " +
-			"each on a fresh recording filesystem; oracle: the recorded trace is one OpenFile(<dir>/<Name>-<lower-case GUID>, O_WRONLY|O_CREATE [|O_APPEND iff mask&0x40]) and exactly one Write of LE32(mask)||value on it, no other mutating call. " +
+			"each on a fresh recording filesystem; oracle: the recorded trace is one OpenFile(<dir>/<Name>-<lower-case GUID>, O_WRONLY|O_CREATE [|O_APPEND iff mask&0x40]) and exactly one Write of LE32(mask)||value on it, no other mutating call; under an injected write failure or short write: an error, exactly one write attempt, no other mutating call (no Remove/Rename/Truncate), and a later write on the same wrapper is again exactly one full write. " +
 			"reads: stored file {absent, 0..3 bytes, 4 bytes, 4+value} x all 256 stored masks x all 256 required masks through GetVarWithAttributes/GetVar with a spy decoder, legacy readers, typed accessors; " +
 			"oracle: value after the first four bytes + stored mask when required is a subset of stored, wrong-attributes error without decoding otherwise, errors for absent/short files. non-trivial = the oracle's positive branch (trace fully matched / value returned or wrong-attributes error) was reached; distinct = distinct (api, dir, definition, value) or (file, stored, required)",
 		Assumptions: []string{"trace observed at the afero.Fs boundary over MemMapFs", "non-mutating calls (Stat, read-only Open, Sync, Close) are not judged"},
